@@ -570,6 +570,12 @@ def unit_table(unit):
         if names != [nm for nm, _ in cs]:
             agg.violation(V(site, "column-names-changed", case, [nm for nm, _ in cs], names))
             all_ok = False
+        # a valid assignment (every addressed column accepts its values by the model) must not be refused
+        if raised is not None and all_ok and per_col_updates:
+            verdicts = [col_model(cs[ci][1], None, ups)[0] for ci, ups in per_col_updates.items() if ci < len(cs)]
+            if verdicts and all(v == "ok" for v in verdicts):
+                agg.violation(V(site, "valid-table-assignment-refused-" + type(raised).__name__, case, "assigned", repr(raised)[:100]))
+                all_ok = False
         agg.outcomes["table-ok" if all_ok and raised is None else ("table-rejected" if all_ok else "table-bad")] += 1
 
     for cs in colsets:
@@ -708,10 +714,13 @@ def unit_table(unit):
                     vforms.append(("row-list-wrong-length", [100 + j for j in range(len(cols) + 1)]))
                 if rows is not None and cols is not None and rk != "int" and len(cols) == 1:
                     vforms.append(("column-list", [200 + i for i in range(len(rows))]))
+                    vforms.append(("column-tuple", [210 + i for i in range(len(rows))]))
+                    vforms.append(("column-vector", [220 + i for i in range(len(rows))]))          # a Vector is a same-length sequence too
                 if rows is not None and cols is not None and rk == "slice" and len(cols) >= 1:
                     vforms.append(("table", [[300 + 10 * j + i for i in range(len(rows))] for j in range(len(cols))]))
                     if len(cols) >= 2:
                         vforms.append(("list-of-columns", [[400 + 10 * j + i for i in range(len(rows))] for j in range(len(cols))]))
+                        vforms.append(("list-of-vectors", [[450 + 10 * j + i for i in range(len(rows))] for j in range(len(cols))]))
                     # a source table of the wrong width (one column more / fewer; also: as many ROWS as the target has columns)
                     vforms.append(("table-too-wide", [[500 + 10 * j + i for i in range(len(rows))] for j in range(len(cols) + 1)]))
                     if len(cols) >= 2:
@@ -722,6 +731,12 @@ def unit_table(unit):
                     case = dict(d, op="2d", rowspec=[rk, list(rv) if isinstance(rv, tuple) else rv], colspec=[ck, list(cv) if isinstance(cv, tuple) else cv], value=[vk, vv])
                     if vk.startswith("table"):
                         value = Table([Vector(list(c), name=f"s{j}") for j, c in enumerate(vv)])
+                    elif vk == "column-vector":
+                        value = Vector(list(vv), name="src")
+                    elif vk == "column-tuple":
+                        value = tuple(vv)
+                    elif vk == "list-of-vectors":
+                        value = [Vector(list(c)) for c in vv]
                     else:
                         value = vv
                     try:
@@ -745,9 +760,9 @@ def unit_table(unit):
                                 ups.setdefault(c, []).append((rows[0], vv[j]))
                         elif vk in ("row-list-wrong-length", "table-too-wide", "table-too-narrow"):
                             invalid = True
-                        elif vk == "column-list":
+                        elif vk in ("column-list", "column-tuple", "column-vector"):
                             ups[cols[0]] = list(zip(rows, vv))
-                        elif vk in ("table", "list-of-columns"):
+                        elif vk in ("table", "list-of-columns", "list-of-vectors"):
                             for j, c in enumerate(cols):
                                 ups.setdefault(c, []).extend(zip(rows, vv[j]))
                     if invalid:
